@@ -17,7 +17,7 @@ CLAIMED = {
     'C11': dict(
         technique="Coq proof over a hand-written executable model of the address algebra (coq/Model/Addr.v), "
                   "extracted-model/implementation differential run, and the property's oracle on the implementation",
-        text="Machine-checked proofs (Coq 8.16, 21 theorems in coq/Props/C11.v, all closed under the global "
+        text="Machine-checked proofs (Coq 8.16, 24 theorems in coq/Props/C11.v, all closed under the global "
              "context) over Model/Addr.v, a hand-written model of AddressCell/AddressRange, split_sheetname, "
              "unquote_sheetname, range_boundaries/r1c1_boundaries and openpyxl's get_column_letter/"
              "column_index_from_string/range_boundaries/quote_sheetname. FULL (all inputs, induction/lia): "
@@ -31,12 +31,15 @@ CLAIMED = {
              "the implementation refuses to enumerate); C11_intersection (= common cells, #NULL! iff none), "
              "C11_union (least rectangle containing both), C11_inter_comm/C11_union_comm (all addresses), "
              "C11_inter_idem/C11_union_idem, C11_union_assoc, C11_different_sheets (#VALUE!), "
-             "C11_offset_in_sheet/_compose/_wrap. PARTIAL: C11_inter_assoc_partial (associativity of & only when "
-             "both inner intersections are non-empty); the full statement is refuted in the model "
-             "(coq/Refuted/C11_assoc.v: (A1:B2 & C3:D4) & A1:A2 raises AttributeError instead of #NULL!). "
+             "C11_offset_in_sheet/_compose/_wrap; C11_inter_assoc and C11_inter_three (associativity of & on one "
+             "sheet, unconditional since the fix 90d9e48: an empty inner intersection is #NULL! and is handed on; "
+             "the three-way result is the common cells or #NULL!), C11_error_operand (an error-code operand on "
+             "either side of & or ** is the result), C11_union_assoc_sheets (** is associative across any sheets, "
+             "#VALUE! handed on). No partial theorem remains. Not claimed: & across different sheets is associative "
+             "only up to the error code (#NULL! vs #VALUE!, Example inter_sheets_not_assoc). "
              "Unbounded ranges (A:B, 1:2) and reversed corners are modelled and covered by the correspondence "
              "but not by the lattice theorems. The model is tied to the implementation by running the extracted "
-             "model against the real API on ~55k calls per quick run (printed address text, (sheet, col, row) "
+             "model against the real API on ~60k calls per quick run (printed address text, (sheet, col, row) "
              "tuples, error texts, exception classes compared exactly), and the property is evaluated directly "
              "on the implementation (~25k oracle cases) to produce concrete failing inputs.",
         design_ref="DESIGN.md 5 C11",
@@ -78,27 +81,27 @@ CLAIMED = {
         text="Machine-checked (Coq 8.16), all texts (lists of code points of any length) and all integer "
              "positions, over Gen/text.v (left, right, mid, replace, find, exact, upper, lower, len_, concatenate "
              "re-translated from /repo/src/pycel/lib/text.py on every run) wrapped by Model/Text.v's model of "
-             "strs_wrapper/nums_wrapper/error_string_wrapper. FULL: C20_left_chars, C20_mid_chars, C20_partition "
-             "(LEFT(s,n)&MID(s,n+1,LEN s)=s), C20_right (last min(k,LEN) characters), C20_replace (=LEFT&t&MID), "
-             "C20_negative_counts (#VALUE!), C20_number_rendering (z and z.0 are the digits of z, logicals "
-             "TRUE/FALSE, blank empty, for LEFT/RIGHT/MID/REPLACE), C20_find_default, C20_substitute_all + "
-             "C20_substitute_rest (no occurrence: unchanged; else prefix & new & substitution of the rest, non-empty "
-             "pattern), C20_substitute_nth (instance i >= 1: exactly the i-th non-overlapping occurrence), "
-             "C20_concatenate, C20_exact, C20_upper/lower_idempotent (where the case mapping is modelled: "
-             "ASCII, Latin-1, CJK, pictographs) and C20_upper/lower_ascii (total on ASCII). PARTIAL: "
-             "C20_find_partial (first match / #VALUE! proved for start >= 1; start < 1 refuted: "
-             "Refuted/C20_find_start.v, FIND(\"c\",\"abc\",0)=3, fractional start raises TypeError), "
-             "C20_trim_partial (no adjacent spaces, other characters untouched, idempotent; 'none at the ends' "
-             "refuted: Refuted/C20_trim_ends.v). REFUTED witnesses also for RIGHT(s,0.5)=s "
-             "(Refuted/C20_right_fraction.v) and TEXT half-even rounding (Refuted/C20_text_rounding.v: "
-             "TEXT(2.5,\"0\")=\"2\", TEXT(0.125,\"0.00\")=\"0.12\"). CORRESPONDENCE-ONLY (no theorem): "
-             "CONCAT and TEXT(x,f) for one-section formats over 0 # , . % "
-             "(Model/TextFormat.v transcribes _tokenize_format/_number_converter/_number_token_converter with "
-             "round-half-even of the exact value). 19 theorems closed under the global context. Every quick run "
-             "compares the extracted model with the real functions called through apply_meta on ~420k calls "
-             "(all strings up to length 4 over a 5-symbol alphabet with a space, a 2-byte and a 4-byte character "
-             "x all n,k in -1..10; numbers/booleans/blanks/errors in every position; ~45k TEXT calls) and "
-             "evaluates the property's identities on the implementation.",
+             "strs_wrapper/nums_wrapper/error_string_wrapper. ALL FULL (21 theorems, closed under the global "
+             "context): C20_left_chars, C20_mid_chars, C20_partition (LEFT(s,n)&MID(s,n+1,LEN s)=s), C20_right "
+             "(last min(k,LEN) characters), C20_right_fraction (count in [0,1) gives the empty text), C20_replace "
+             "(=LEFT&t&MID), C20_negative_counts (#VALUE!), C20_number_rendering (z and z.0 are the digits of z, "
+             "logicals TRUE/FALSE, blank empty, for LEFT/RIGHT/MID/REPLACE), C20_find (every integer start: "
+             "#VALUE! below 1, else the least p >= start with MID(w,p,LEN f)=f or #VALUE!), C20_find_fraction (a "
+             "fractional start behaves as its truncation), C20_find_default, C20_substitute_all + "
+             "C20_substitute_rest (no occurrence: unchanged; else prefix & new & substitution of the rest, "
+             "non-empty pattern), C20_substitute_nth (instance i >= 1: exactly the i-th non-overlapping "
+             "occurrence), C20_concatenate, C20_exact, C20_trim (single inner spaces, no space at either end, "
+             "other characters untouched, idempotent), C20_upper/lower_idempotent (where the case mapping is "
+             "modelled: ASCII, Latin-1, CJK, pictographs) and C20_upper/lower_ascii (total on ASCII). REFUTED "
+             "(advisory witness, known finding C20-text-half-even): Refuted/C20_text_rounding.v, "
+             "TEXT(2.5,\"0\")=\"2\", TEXT(0.125,\"0.00\")=\"0.12\". CORRESPONDENCE-ONLY (no theorem): CONCAT "
+             "and TEXT(x,f) for one-section formats over 0 # , . % (Model/TextFormat.v transcribes "
+             "_tokenize_format/_number_converter/_number_token_converter with round-half-even of the exact "
+             "value). Every quick run compares the extracted model with the real functions called through "
+             "apply_meta on ~450k calls (all strings up to length 4 over a 5-symbol alphabet with a space, a "
+             "2-byte and a 4-byte character x all n,k in -1..10; fractional counts/starts; numbers/booleans/"
+             "blanks/errors in every position; ~45k TEXT calls) and evaluates the property's identities on the "
+             "implementation. Known findings: C20-text-half-even, C20-text-double-dot-keyerror.",
         design_ref="DESIGN.md 5 C20",
     ),
 }
